@@ -47,7 +47,8 @@ class _SnapList(list):
             if code.co_name == '_run_handlers' and code.co_filename.endswith('events.py'):
                 return [self.rec.proxy(rh, False) for rh in res]
             if code.co_name == '_run_handlers_sequential' and code.co_filename.endswith('events.py'):
-                return [self.rec.proxy(rh, True) for rh in res]
+                qt = self.rec.qtask_for(sys._getframe(1).f_locals.get('event'))
+                return [self.rec.proxy(rh, True, qt) for rh in res]
         return res
 
 
@@ -71,9 +72,42 @@ class _RH(defaultdict):
         defaultdict.__delitem__(self, key)
 
 
+class QTask:
+    """One dispatch of a queue event (one _run_handlers_sequential task) = one trace for QueueEventsSuiteTrace."""
+
+    def __init__(self, ev, snapshot):
+        self.ev = ev
+        self.snap = snapshot            # [(hid, prio, cond)]
+        self.ids = {h for h, _, _ in snapshot}
+        self.lines = []
+        self.bad = None
+        self.done = False
+
+    def emit(self):
+        if self.bad or not self.lines:
+            if self.bad:
+                _STATE['stats']['q:tainted:' + self.bad] += 1
+            return
+        ren = {}
+
+        def r(h):
+            if h not in ren:
+                ren[h] = 'h%d' % (len(ren) + 1)
+            return ren[h]
+        reg0 = [{'id': r(h), 'ev': self.ev, 'prio': p, 'cond': c} for (h, p, c) in sorted(self.snap, key=lambda x: (-x[1], x[0]))]
+        out = [dict(l, h=r(l['h'])) if 'h' in l else l for l in self.lines]
+        emit({'reg0': reg0, 'qev': self.ev, 'ev': out[:MAXLINES]}, 'q')
+
+
+_QOWNER = {}        # id(QueuedEvent) -> (QueuedEvent, QTask, hid)   (the object is kept alive so that ids are not reused)
+_RECORDERS = []
+
+
 class BusRecorder:
     def __init__(self, evm):
         self.evm = evm
+        self.qtasks = {}                     # vid -> QTask of the queue instance
+        _RECORDERS.append(self)
         self.hids = {}
         self.shadow = defaultdict(list)      # ev -> [(hid, prio, cond)]
         self.seg = None                      # open segment: dict(lines, reg0, ninst)
@@ -109,6 +143,9 @@ class BusRecorder:
         self.shadow[ev] = [x for x in self.shadow[ev] if x[0] != h]
         if self.seg is not None:
             self.line({'op': 'remove', 'h': h, 'ev': ev})
+        for qt in self.qtasks.values():
+            if qt.ev == ev and h in qt.ids and not qt.done:
+                qt.lines.append({'op': 'qremove', 'h': h})
 
     # ---- segments -------------------------------------------------------------------------------------------
     def line(self, d):
@@ -190,6 +227,11 @@ class BusRecorder:
 
         def verif_cb(**kwargs):
             s = rec.seg
+            qt = rec.qtasks.pop(vid, None)
+            if qt is not None:
+                qt.lines.append({'op': 'qcallback'})
+                qt.done = True
+                qt.emit()
             live = s is not None and vid[0] == id(s) and rec.depth > 0
             if live:
                 rec.line({'op': 'callback', 'inst': vid[1]})
@@ -203,7 +245,17 @@ class BusRecorder:
                     rec.line({'op': 'cbend'})
         return verif_cb
 
-    def proxy(self, rh, sequential):
+    def qtask_for(self, event):
+        """Called when _run_handlers_sequential takes its snapshot: the task of this queue instance begins."""
+        vid = getattr(event, 'vid', None)
+        if vid is None:
+            return None
+        qt = QTask(str(event), list(self.shadow.get(str(event), ())))
+        qt.lines.append({'op': 'qbegin'})
+        self.qtasks[vid] = qt
+        return qt
+
+    def proxy(self, rh, sequential, qt=None):
         rec = self
         h = self.hid(rh)
         orig = rh.callback
@@ -211,7 +263,20 @@ class BusRecorder:
             def verif_qh(**kwargs):
                 if rec.depth > 0 and rec.seg is not None:
                     rec.line({'op': 'qinvoke', 'h': h})      # a queue handler inside a dispatch: no such step in the spec
-                return orig(**kwargs)
+                q = kwargs.get('queue')
+                if qt is not None:
+                    if q is not None:
+                        _QOWNER[id(q)] = (q, qt, h)
+                    qt.lines.append({'op': 'qinvoke', 'h': h})
+                try:
+                    return orig(**kwargs)
+                except BaseException:
+                    if qt is not None:
+                        qt.bad = 'handler-raised'
+                    raise
+                finally:
+                    if qt is not None:
+                        qt.lines.append({'op': 'qret'})
             return rh._replace(callback=verif_qh)
 
         def verif_h(**kwargs):
@@ -229,24 +294,27 @@ class BusRecorder:
         return rh._replace(callback=verif_h)
 
 
-def emit(seg):
+def emit(seg, kind='bus'):
     st = _STATE
-    st['stats']['segments'] += 1
-    st['stats']['lines'] += len(seg['ev'])
+    pre = '' if kind == 'bus' else kind + ':'
+    st['stats'][pre + 'segments'] += 1
+    st['stats'][pre + 'lines'] += len(seg['ev'])
     key = hashlib.sha1(json.dumps(seg, sort_keys=True, separators=(',', ':')).encode()).hexdigest()
-    if key in st['segs']:
+    if (kind, key) in st['segs']:
         return
-    st['segs'][key] = 1
-    st['stats']['distinct'] += 1
+    st['segs'][(kind, key)] = 1
+    st['stats'][pre + 'distinct'] += 1
     if _OUT:
         if st['fh'] is None:
+            st['fh'] = {}
+        if kind not in st['fh']:
             os.makedirs(_OUT, exist_ok=True)
-            st['fh'] = open(os.path.join(_OUT, 'bus_%d.ndjson' % os.getpid()), 'a')
+            st['fh'][kind] = open(os.path.join(_OUT, '%s_%d.ndjson' % (kind, os.getpid())), 'a')
         seg = dict(seg, _src=st['src'], _key=key)
-        st['fh'].write(json.dumps(seg, separators=(',', ':')) + '\n')
-        st['fh'].flush()
+        st['fh'][kind].write(json.dumps(seg, separators=(',', ':')) + '\n')
+        st['fh'][kind].flush()
     else:
-        st.setdefault('mem', []).append(dict(seg, _src=st['src'], _key=key))
+        st.setdefault('mem_' + kind, []).append(dict(seg, _src=st['src'], _key=key))
 
 
 def install():
@@ -337,6 +405,23 @@ def install():
                         rec.taint('not-quiet-at-return')
         return None
 
+    QE = E.QueuedEvent
+    o_wait, o_clear = QE.wait, QE.clear
+
+    def wait(self):
+        o_wait(self)
+        own = _QOWNER.get(id(self))
+        if own is not None and own[0] is self and not own[1].done:
+            own[1].lines.append({'op': 'wait', 'h': own[2]})
+
+    def clear(self):
+        o_clear(self)
+        own = _QOWNER.get(id(self))
+        if own is not None and own[0] is self and not own[1].done:
+            own[1].lines.append({'op': 'clear', 'h': own[2]})
+
+    QE.wait = wait
+    QE.clear = clear
     EM.__init__ = __init__
     EM._post = _post
     EM._process_event = _process_event
@@ -346,7 +431,7 @@ def install():
 
 def drain():
     """Segments collected in memory (when no output directory is configured)."""
-    m = _STATE.pop('mem', [])
+    m = _STATE.pop('mem_bus', [])
     return m
 
 
@@ -362,6 +447,21 @@ def pytest_configure(config):       # noqa: D103
 
 def pytest_runtest_setup(item):     # noqa: D103
     _STATE['src'] = item.nodeid
+
+
+def flush_open_tasks():
+    """Queue events still in flight when a test ends are recorded as they stand (a prefix of a behaviour)."""
+    for rec in _RECORDERS:
+        for qt in rec.qtasks.values():
+            qt.emit()
+        rec.qtasks.clear()
+    del _RECORDERS[:]
+    _QOWNER.clear()
+
+
+def pytest_runtest_teardown(item):     # noqa: D103
+    del item
+    flush_open_tasks()
 
 
 def pytest_sessionfinish(session, exitstatus):      # noqa: D103
